@@ -9,11 +9,12 @@ is compared with its straight-line reference R, in which each failing statement 
 (and, for RESUME, by the repaired statement): P and R must produce the same device interactions and outcome at every
 optimisation level, and end with the same operand-stack depth.
 """
-from .. import core, real, tickrec
+from .. import sdepth, core, real, tickrec
 
 LEAN_MODULE = 'QbeeModel.Props.C10'
 REQUIRED = ['armed_dispatch', 'armed_dispatch_from_procedure', 'err_reports_kind', 'resume_reexecutes', 'resume_next_continues', 'on_error_resume_next_skips',
-            'on_error_goto_0_restores']
+            'on_error_goto_0_restores', 'boundary_depth_formula', 'gosub_keeps_boundary', 'return_keeps_boundary', 'body_keeps_frames',
+            'failed_statement_leaves_nothing', 'handler_starts_at_boundary', 'partial_results_stayed_before_repair']
 
 FIXES = 'z% = 1 : k% = 1 : o% = 0 : c% = 65 : f$ = "##"'
 # (assignment that makes it fail, statement, ERR value, name, leaves partial results on the operand stack: every PRINT has
@@ -38,6 +39,11 @@ TEMPLATES = [
     ('z% = 0', 'PRINT twice%(10 \\ z%)', 14, 'DIVISION_BY_ZERO', True),
     ('f$ = "abc_"', 'PRINT USING f$; 5', 3, 'DEVICE_ERROR', True),
     ('f$ = "&"', 'PRINT USING f$; 5', 3, 'DEVICE_ERROR', True),
+    # the statement has called a procedure (whose own statements started at other depths) before it fails
+    ('z% = 0', 'w% = twice%(3) + (10 \\ z%)', 14, 'DIVISION_BY_ZERO', True),
+    ('z% = 0', 'PRINT twice%(1); twice%(2) + 1 \\ z%; 3', 14, 'DIVISION_BY_ZERO', True),
+    ('k% = 7', 'CALL show(twice%(2) + arr%(k%))', 11, 'INDEX_OUT_OF_RANGE', True),
+    ('c% = 400', 'x$ = STR$(twice%(4)) + CHR$(c%)', 9, 'INVALID_OPERAND_VALUE', True),
 ]
 OKS = ['PRINT "s{n}"', 'w% = {n}', 'PRINT w%; {n}', 'x$ = x$ + "{n}"', 'PRINT x$', 'CALL show({n})', 'PRINT twice%({n})', 'arr%(1) = {n}',
        'PRINT arr%(1); arr%(2)']
@@ -92,8 +98,6 @@ def gen_case(rng, mode=None, allow_deep=True):
     halted_with = None
     # optional block around a run of items
     blk = rng.choice([None, None, 'for', 'if', 'gosub', 'select', 'do', 'line', 'lineelse']) if not mode.startswith('proc') else None
-    if blk == 'gosub' and any(it[0] == 'fail' and it[5] for it in items):
-        blk = 'for'       # partial results under a GOSUB return address are the known stack finding: probed separately
     blk_from = rng.randint(0, len(items) - 1) if blk else None
     blk_to = rng.randint(blk_from, len(items) - 1) if blk else None
     if cut is not None and blk and blk_from <= cut <= blk_to:
@@ -252,6 +256,8 @@ def _task(t):
         if name == 'P':
             r = tickrec.record(st[2], max_ticks=6000)
             out[name] = {'status': 'ok', 'outcome': r['outcome'], 'trace': r['trace'], 'depth': r['depth'], 'steps': r['steps']}
+            sd = sdepth.record(st[2], max_ticks=6000)
+            out[name]['sdepth'] = None if sd is None else sd[:3]
         else:
             r = real.run_bytes(st[2], max_ticks=6000)
             out[name] = {'status': 'ok', 'outcome': r.outcome, 'trace': r.trace, 'depth': r.stack_depth}
@@ -273,7 +279,7 @@ def run(chk):
         P, R, info = gen_case(rng, mode)
         tasks.append((P, R, i % 3))
         infos.append(info)
-    # the known stack defect made visible: a failing statement with partial results inside a GOSUB body
+    # the stack defect repaired in 20d68b9 made visible: a failing statement with partial results inside a GOSUB body
     probe_p = HEAD + 'ON ERROR GOTO h\nGOSUB body\nPRINT "after gosub"\nPRINT "end"\nEND\nbody:\nk% = 5\nPRINT 1; arr%(k%); 2\nRETURN\n' \
         'h: PRINT "H"; ERR\nRESUME NEXT\n' + TAIL
     probe_r = HEAD + 'GOSUB body\nPRINT "after gosub"\nPRINT "end"\nEND\nbody:\nk% = 5\nPRINT "H"; 11\nRETURN\n' + TAIL
@@ -325,6 +331,18 @@ def run(chk):
                 chk.finding('C10 operand-stack depth differs after resuming although no partial result was pending',
                             f'final depth {p["depth"]} vs {r["depth"]}', rep)
     chk.corr('tick', reqs, exp, describe=lambda i: {'src': meta[i][0][:300], 'O': meta[i][1]})
+    # the operand stack across handled errors: the machine's bookkeeping (depth noted at statement starts, dropped when an
+    # error is handled) against Model/StmtDepth.lean, event by event
+    sreq, sexp, smeta, nhandled = [], [], [], 0
+    for (P, R, o), out in zip(tasks, res):
+        sd = (out.get('P') or {}).get('sdepth')
+        if sd:
+            sreq.append(sd[0])
+            sexp.append(sd[1])
+            smeta.append((P, o))
+            nhandled += sd[2]
+    chk.corr('stmt-depth', sreq, sexp, describe=lambda i: {'src': smeta[i][0][:400], 'O': smeta[i][1]})
+    chk.stats['stmt-depth']['handled_errors'] = nhandled
     chk.samples += [{'program': tasks[i][0][:400], 'reference': tasks[i][1][:400], 'info': infos[i]} for i in (0, 1, 2) if i < len(tasks)]
     chk.cov['input_distribution'] = {'pairs': ncmp, 'modes': modes, 'ticks_corresponded': len(reqs),
                                      'with_partial_results': sum(1 for i in infos if i['deep']),
@@ -333,8 +351,9 @@ def run(chk):
         level='proof', level_text='',
         trusted_base=['Lean 4.33.0 kernel', 'axioms: ' + ', '.join(sorted({a for v in chk.theorems.values() for a in v})),
                       'find_stmt (C11) supplies the statement range to the tick model as a parameter',
-                      'the clause "none of its partial results remain" is not a theorem (false on this tree: known finding); it is '
-                      'checked by the reference-program oracle',
+                      'the clause "none of its partial results remain" is not a theorem: it is checked by the reference-program '
+                      'oracle (final operand-stack depth, and a GOSUB body whose RETURN would take a partial result for its address); '
+                      'repaired in 20d68b9',
                       'correspondence harness harness/checks/c10.py, harness/tickrec.py'],
         checker_cmd='lake build QbeeModel.Props.C10 && lake env lean .lake/audit/Audit_C10.lean',
         rule='handler programs (RESUME NEXT, RESUME after repair, ON ERROR RESUME NEXT, ON ERROR GOTO 0, errors inside procedures) '
